@@ -11,6 +11,8 @@
 //!   case <name> mode=<N|u> topo=<rxremote|txremote|both|bounce|bouncetx> via=<base|mpsc|oneshot>
 //!        chunkA=<n> bufA=<n> chunkB=<n> bufB=<n> settle=<0|1> sched=<u64>
 //!   w <hex> | wa <hex> | f | s | ds          sender: one write call, write_all loop, flush, shutdown, drop
+//!   wc <hex> | rc <n>                        like w / r, but the call is cancelled (its future dropped) if it is
+//!                                            still pending at the next quiescent point
 //!   r <n> | drain <n> | dr                   receiver: one read call with an n-byte buffer, read to EOF/error, drop
 //!   cut <A|B>                                 drop the transport of that endpoint
 //!   end
@@ -19,6 +21,7 @@
 //!   call s <k> write <hex>|flush|shutdown      ret s <k> ok [<n>] | err <kind>     probe s <bytes_written> <expected|->
 //!   call r <k> read <n>                        ret r <k> ok <hex> | err <kind>     probe r <bytes_received> <size|->
 //!   pend <s|r> <k>    op still pending at the quiescent point after it was started
+//!   cancelled <s|r> <k>   the pending call was dropped
 //!   drop s | drop r | cut | hang <s|r> <k> | panic <text> | end
 
 use std::{
@@ -66,6 +69,8 @@ type BaseRx = rch::base::Receiver<Ctl>;
 #[derive(Clone, Debug)]
 enum Op {
     W(Vec<u8>),
+    WC(Vec<u8>),
+    RC(usize),
     WA(Vec<u8>),
     F,
     S,
@@ -106,6 +111,8 @@ fn case_text(c: &Case) -> Vec<String> {
     for op in &c.ops {
         v.push(match op {
             Op::W(d) => format!("w {}", hex(d)),
+            Op::WC(d) => format!("wc {}", hex(d)),
+            Op::RC(n) => format!("rc {n}"),
             Op::WA(d) => format!("wa {}", hex(d)),
             Op::F => "f".into(),
             Op::S => "s".into(),
@@ -160,6 +167,8 @@ fn parse_cases(text: &str) -> Vec<Case> {
                 let bytes = |i: usize| unhex(w.get(i).copied().unwrap_or("-")).expect("hex");
                 c.ops.push(match w[0] {
                     "w" => Op::W(bytes(1)),
+                    "wc" => Op::WC(bytes(1)),
+                    "rc" => Op::RC(w[1].parse().unwrap()),
                     "wa" => Op::WA(bytes(1)),
                     "f" => Op::F,
                     "s" => Op::S,
@@ -186,6 +195,8 @@ struct Shared {
     /// the API call currently in progress, and whether `pend` was already reported for it
     cur: [Option<(String, bool)>; 2],
     gone: [bool; 2],
+    /// cancel handle of the cancellable call in progress
+    cancel: [Option<tokio::sync::oneshot::Sender<()>>; 2],
 }
 
 type Sh = Arc<Mutex<Shared>>;
@@ -206,6 +217,7 @@ fn kind(e: &std::io::Error) -> &'static str {
 
 enum SCmd {
     Write(Vec<u8>),
+    WriteCancellable(Vec<u8>),
     WriteAll(Vec<u8>),
     Flush,
     Shutdown,
@@ -214,6 +226,7 @@ enum SCmd {
 
 enum RCmd {
     Read(usize),
+    ReadCancellable(usize),
     Drain(usize),
     Drop,
 }
@@ -234,11 +247,31 @@ fn opt(v: Option<u64>) -> String {
 
 /// One `poll_write` call driven to completion.  Returns the result and whether the sender may
 /// be used further (errors coming out of a completed internal future poison it).
-async fn do_write(tx: &mut IoTx, data: &[u8], n: &mut u64, sh: &Sh) -> (Result<usize, ()>, bool) {
+async fn do_write(tx: &mut IoTx, data: &[u8], n: &mut u64, sh: &Sh, cancellable: bool) -> (Result<usize, ()>, bool) {
     *n += 1;
     let k = format!("s{n}");
     begin(sh, 0, &k, format!("write {}", hex(data)));
-    let res = tx.write(data).await;
+    let res = if cancellable {
+        let (ctx, crx) = tokio::sync::oneshot::channel();
+        sh.lock().unwrap().cancel[0] = Some(ctx);
+        let r = tokio::select! {
+            biased;
+            r = tx.write(data) => Some(r),
+            _ = crx => None,
+        };
+        sh.lock().unwrap().cancel[0] = None;
+        match r {
+            Some(r) => r,
+            None => {
+                sh.lock().unwrap().cur[0] = None;
+                tr(format!("cancelled s {k}"));
+                tr(format!("probe s {} {}", tx.bytes_written(), opt(tx.expected_size())));
+                return (Err(()), true);
+            }
+        }
+    } else {
+        tx.write(data).await
+    };
     let out = match &res {
         Ok(len) => (Ok(*len), true),
         Err(e) => (Err(()), matches!(kind(e), "writezero" | "brokenpipe")),
@@ -266,12 +299,15 @@ async fn sender_actor(mut tx: IoTx, mut cmds: mpsc::UnboundedReceiver<SCmd>, sh:
         }
         match cmd {
             SCmd::Write(d) => {
-                usable = do_write(&mut tx, &d, &mut n, &sh).await.1;
+                usable = do_write(&mut tx, &d, &mut n, &sh, false).await.1;
+            }
+            SCmd::WriteCancellable(d) => {
+                usable = do_write(&mut tx, &d, &mut n, &sh, true).await.1;
             }
             SCmd::WriteAll(d) => {
                 let mut off = 0;
                 loop {
-                    let (res, u) = do_write(&mut tx, &d[off..], &mut n, &sh).await;
+                    let (res, u) = do_write(&mut tx, &d[off..], &mut n, &sh, false).await;
                     usable = u;
                     match res {
                         Ok(0) => break,
@@ -318,12 +354,32 @@ async fn sender_actor(mut tx: IoTx, mut cmds: mpsc::UnboundedReceiver<SCmd>, sh:
 }
 
 /// One `poll_read` call driven to completion; `Some(len)` on success.
-async fn do_read(rx: &mut IoRx, size: usize, n: &mut u64, sh: &Sh) -> (Option<usize>, bool) {
+async fn do_read(rx: &mut IoRx, size: usize, n: &mut u64, sh: &Sh, cancellable: bool) -> (Option<usize>, bool) {
     *n += 1;
     let k = format!("r{n}");
     begin(sh, 1, &k, format!("read {size}"));
     let mut buf = vec![0u8; size];
-    let res = rx.read(&mut buf).await;
+    let res = if cancellable {
+        let (ctx, crx) = tokio::sync::oneshot::channel();
+        sh.lock().unwrap().cancel[1] = Some(ctx);
+        let r = tokio::select! {
+            biased;
+            r = rx.read(&mut buf) => Some(r),
+            _ = crx => None,
+        };
+        sh.lock().unwrap().cancel[1] = None;
+        match r {
+            Some(r) => r,
+            None => {
+                sh.lock().unwrap().cur[1] = None;
+                tr(format!("cancelled r {k}"));
+                tr(format!("probe r {} {}", rx.bytes_received(), opt(rx.size())));
+                return (Some(usize::MAX), true);
+            }
+        }
+    } else {
+        rx.read(&mut buf).await
+    };
     finish(
         sh,
         1,
@@ -355,11 +411,14 @@ async fn receiver_actor(mut rx: IoRx, mut cmds: mpsc::UnboundedReceiver<RCmd>, s
         }
         match cmd {
             RCmd::Read(size) => {
-                usable = do_read(&mut rx, size, &mut n, &sh).await.1;
+                usable = do_read(&mut rx, size, &mut n, &sh, false).await.1;
+            }
+            RCmd::ReadCancellable(size) => {
+                usable = do_read(&mut rx, size, &mut n, &sh, true).await.1;
             }
             RCmd::Drain(size) => {
                 for _ in 0..100_000 {
-                    let (res, u) = do_read(&mut rx, size.max(1), &mut n, &sh).await;
+                    let (res, u) = do_read(&mut rx, size.max(1), &mut n, &sh, false).await;
                     usable = u;
                     match res {
                         Some(0) | None => break,
@@ -571,11 +630,19 @@ async fn run_case(c: Case) {
                 }
             }
         }
+        // a cancellable call that is pending at this quiescent point is dropped now
+        let cancels: Vec<_> = (0..2).filter_map(|side| g.cancel[side].take()).collect();
+        drop(g);
+        for c in cancels {
+            let _ = c.send(());
+        }
     }
 
     for op in &c.ops {
         match op {
             Op::W(d) => q[0].push_back(Cmd::S(SCmd::Write(d.clone()))),
+            Op::WC(d) => q[0].push_back(Cmd::S(SCmd::WriteCancellable(d.clone()))),
+            Op::RC(n) => q[1].push_back(Cmd::R(RCmd::ReadCancellable(*n))),
             Op::WA(d) => q[0].push_back(Cmd::S(SCmd::WriteAll(d.clone()))),
             Op::F => q[0].push_back(Cmd::S(SCmd::Flush)),
             Op::S => q[0].push_back(Cmd::S(SCmd::Shutdown)),
@@ -740,7 +807,12 @@ fn gen_case(r: &mut Rng, i: u64, stats: &mut BTreeMap<String, u64>) -> Case {
             // the rest of the piece is offered again by the next op
             bump("write.single");
             let acc = (want as u64).min(ck) as usize;
-            sops.push(Op::W(piece));
+            if r.chance(1, 6) {
+                bump("write.cancellable");
+                sops.push(Op::WC(piece));
+            } else {
+                sops.push(Op::W(piece));
+            }
             off += acc;
             // when the fixed size is reached, stop offering more through single writes
             if let Some(n) = mode {
@@ -822,7 +894,12 @@ fn gen_case(r: &mut Rng, i: u64, stats: &mut BTreeMap<String, u64>) -> Case {
             _ => r.range(1, 2 * ck),
         } as usize;
         bump(if n == 0 { "read.empty-buffer" } else if (n as u64) < ck { "read.lt-chunk" } else { "read.ge-chunk" });
-        rops.push(Op::R(n));
+        if r.chance(1, 6) {
+            bump("read.cancellable");
+            rops.push(Op::RC(n));
+        } else {
+            rops.push(Op::R(n));
+        }
     }
     let drop_rx_early = r.chance(1, 12);
     if drop_rx_early {
